@@ -51,6 +51,11 @@ RULE = ("hist: 5 fixed histories (the deliver / restart / deliver program of fin
         "positions; the walk must yield exactly the non-empty mailboxes of the ordered-map oracle, the scan must remove exactly the expired "
         "messages of ALL mailboxes. The harness's own views (state before/after a reopen, live-vs-fresh) come from separate freshly "
         "constructed store objects; the object under test is never walked by the harness. "
+        "ENVIRONMENT: every hist line carries how the driver lays out the storage directory before file.New — plain (55 % of the random histories), "
+        "the storage path itself a symbolic link, <path>/mail a symbolic link to a directory elsewhere (made before the first file.New), every "
+        "first-level hash directory moved away and replaced by a symbolic link between two lifetimes (at each R / C / X), a trailing slash, a path "
+        "through '..', a path relative to the working directory; the clean store follows all of them (os.Open / Readdirnames / Stat follow links); the "
+        "model ignores the field. Read-only leftovers are out of scope. "
         "NAMES: the pool of the histories holds 7 plain names (two sharing the level-2 directory, one more the level-1 directory) and 13 names as the "
         "storage.Store interface accepts them: 'Support-Desk', 'ALICE' next to 'alice' (two mailboxes), 'bob+tag', 'carol@Example.COM', 'two words', "
         "'dot.' next to 'dot', non-ASCII, invalid UTF-8, 'a/b', a NUL byte, a 230-byte name — the file store only ever hashes the name, it refuses "
